@@ -163,6 +163,8 @@ def exec_for(I, node, env):
         ctx.yields = None
     k = ctx.fresh_int("k")
     trace_mark = len(ctx.trace)
+    old_k = getattr(ctx, "loop_k", None)
+    ctx.loop_k = k
     if choice == 0:
         ctx.assume(z3.And(k >= 0, k < to_z3(count)))
         ctx.assume(inv(state_ns(I, env, k, count)))
@@ -182,7 +184,9 @@ def exec_for(I, node, env):
     else:
         ctx.assume(k == to_z3(count))
         ctx.assume(inv(state_ns(I, env, k, count)))
-        ctx.trace.append(("loop-summary", fname, ordinal, count))
+        from .libmodels import Event
+        ctx.trace.append(Event(None, "loop-summary", [fname, ordinal, count], {}))
+        ctx.loop_k = old_k
         I.exec_block(node.orelse, env)
 
 
